@@ -109,7 +109,7 @@ theorem WF_step (s : Img) (W : WF s) (R : Ranges s) (op : Op) (now : Int)
   by_cases hrl : op = .reload
   · subst hrl
     simp only [step, WF.load s W R]
-    exact WF.of_mem _ ⟨W.magic, W.version, W.total, W.doff, W.tabEnd, W.dsize, populate_coh _,
+    exact WF.of_mem _ ⟨W.magic, W.version, W.total, W.doff, W.tabEnd, W.dsize, W.tabRegion, populate_coh _,
       W.acct, W.uniq, W.lo⟩ W.sync
   · have hstep : step sha ph s op now = runPlan (plan sha ph s op now) s.st := by
       cases op <;> first | rfl | exact absurd rfl hrl
@@ -128,7 +128,7 @@ theorem WF_step (s : Img) (W : WF s) (R : Ranges s) (op : Op) (now : Int)
       by_cases hok : (plan sha ph s op now).2.2 = .ok
       · -- accepted
         have M' := plan_mem sha ph s (WF.mem s W) op now hok
-        refine WF.of_mem _ ⟨M'.magic, M'.version, M'.total, M'.doff, M'.tabEnd, M'.dsize, M'.coh,
+        refine WF.of_mem _ ⟨M'.magic, M'.version, M'.total, M'.doff, M'.tabEnd, M'.dsize, M'.tabRegion, M'.coh,
           M'.acct, M'.uniq, M'.lo⟩ ?_
         rcases hacc hok with ⟨hc, hs⟩ | ⟨pre, hc, hdoff, _⟩
         · rw [hc] at hcalls
@@ -148,7 +148,7 @@ theorem WF_step (s : Img) (W : WF s) (R : Ranges s) (op : Op) (now : Int)
       · -- rejected: handle unchanged; calls, if any, lie beyond the data offset
         have hs := hrej hok
         rw [hs]
-        refine WF.of_mem _ ⟨W.magic, W.version, W.total, W.doff, W.tabEnd, W.dsize, W.coh, W.acct,
+        refine WF.of_mem _ ⟨W.magic, W.version, W.total, W.doff, W.tabEnd, W.dsize, W.tabRegion, W.coh, W.acct,
           W.uniq, W.lo⟩ ?_
         rcases plan_rejected_calls sha ph s op now hok with hc | ⟨off, p, hge, hc⟩
         · rw [hc] at hcalls
